@@ -36,6 +36,21 @@ prop("C29",
      residual="row attributes pending; Model-level delegates")
 
 
+prop("C22",
+     units=["colcodec"],
+     level="proof",
+     claim="number_to_column / column_to_number are mutually inverse bijections between [1,16384] and the letter strings A..XFD (first sentence of the statement)",
+     assumptions=["units/std_str.rs: char::is_ascii_uppercase, String::insert behave as documented", "vstd's model of str::chars / String views"],
+     residual="printing of A1/R1C1 addresses (format!) and sheet-name quoting read back by the lexer are string code outside Verus' reach")
+
+prop("C11",
+     units=["colcodec"],
+     level="proof",
+     claim="no panic (overflow, index, unwrap, division) in the listed text-consuming functions for ANY input string",
+     assumptions=["std string functions do not panic on valid &str (their vstd/assumed specs)"],
+     residual="the recursive-descent parser, format_number and set_user_input as wholes are not under contract")
+
+
 def evidence(pid, tier, seed, results, scan_results, kani_results, violations, known_hits, undecided, wall):
     P = PROPS[pid]
     obligations = 0
